@@ -46,6 +46,22 @@ static void print_draws(std::ostream& o, uint64_t seed, const Z& p, int n) {
     for (int i = 0; i < n; ++i) { Z d; Z::nonzerorandom(d, l); o << " " << d; }
 }
 
+// the draws nonzerorandom(s, p.bitsize()) of sumofsquaresmodprimeMonteCarlo / nonzerorandom(alea, p) of probable_prim_root
+static void print_draws_bits(std::ostream& o, uint64_t seed, const Z& p, int n) {
+    Integer::seeding(seed); o << " ;";
+    for (int i = 0; i < n; ++i) { Z d; Z::nonzerorandom(d, p.bitsize()); o << " " << d; }
+}
+static void print_draws_below(std::ostream& o, uint64_t seed, const Z& p, int n) {
+    Integer::seeding(seed); o << " ;";
+    for (int i = 0; i < n; ++i) { Z d; Z::nonzerorandom(d, p); o << " " << d; }
+}
+
+// the factor set of p-1 exactly as IntFactorDom::set(Lq, e, p-1, L) delivers it (the order matters to probable_prim_root)
+template<class NTD> static void print_set(std::ostream& o, const NTD& NT, const Z& p, uint64_t L) {
+    std::vector<Z> Lq; std::vector<uint64_t> e; Z pm(p); --pm; NT.set(Lq, e, pm, L);
+    o << " ;"; for (size_t i = 0; i < Lq.size(); ++i) o << " " << Lq[i] << " " << e[i];
+}
+
 int main() {
     quiet_stderr();
     std::ios::sync_with_stdio(false);
@@ -91,9 +107,9 @@ int main() {
             std::vector<Z> L(a.begin() + 1, a.end()); Z phin(a[0]); phin -= 1;
             NT.prim_root_of_prime(r, L, phin, a[0]); o << r; }
         else if (op == "lowest_prim_root") { NT.lowest_prim_root(r, a[0]); o << r; }
-        else if (op == "probable_prim_root.L") { double e = -1; NT.probable_prim_root(r, e, a[0], (uint64_t)a[1]); o << r << " " << (e == 0.0 ? 0 : 1); }
-        else if (op == "probable_prim_root.default") { double e = -1; NT.probable_prim_root(r, e, a[0]); o << r << " " << (e == 0.0 ? 0 : 1); }
-        else if (op == "probable_prim_root.eps") { double e = -1; NT.probable_prim_root(r, e, a[0], 1e-9); o << r << " " << ((e >= 0.0 && e < 1e-3) ? 0 : 1); }
+        else if (op == "probable_prim_root.L") { double e = -1; NT.probable_prim_root(r, e, a[0], (uint64_t)a[1]); o << r << " " << (e == 0.0 ? 0 : 1); print_draws_below(o, seed, a[0], 80); print_set(o, NT, a[0], (uint64_t)a[1]); }
+        else if (op == "probable_prim_root.default") { double e = -1; NT.probable_prim_root(r, e, a[0]); o << r << " " << (e == 0.0 ? 0 : 1); print_draws_below(o, seed, a[0], 80); print_set(o, NT, a[0], 10000000UL); }
+        else if (op == "probable_prim_root.eps") { double e = -1; NT.probable_prim_root(r, e, a[0], 1e-9); o << r << " " << ((e >= 0.0 && e < 1e-3) ? 0 : 1); print_draws_below(o, seed, a[0], 80); print_set(o, NT, a[0], 10000000UL); }
 #ifdef C13_HAVE_PRIM_INV
         else if (op == "prim_inv") { NT.prim_inv(r, a[0]); o << r; }
 #else
@@ -121,7 +137,7 @@ int main() {
         else if (op == "brillhart") { SQ.Brillhart(r, r2, a[0]); o << r << " " << r2; }
         else if (op == "sumofsquares") { SQ.sumofsquaresmodprime(r, r2, a[0], a[1]); o << r << " " << r2; }
         else if (op == "sumofsquares.det") { SQ.sumofsquaresmodprimeDeterministic(r, r2, a[0], a[1]); o << r << " " << r2; }
-        else if (op == "sumofsquares.mc") { SQ.sumofsquaresmodprimeMonteCarlo(r, r2, a[0], a[1]); o << r << " " << r2; }
+        else if (op == "sumofsquares.mc") { SQ.sumofsquaresmodprimeMonteCarlo(r, r2, a[0], a[1]); o << r << " " << r2; print_draws_bits(o, seed, a[1], 40); }
         else if (op == "sumofsquares.noerh") { SQ.sumofsquaresmodprimeNoERH(r, r2, a[0], a[1]); o << r << " " << r2; }
         else if (op == "sumofsquares.nonres") { SQ.sumofsquaresmodprimewithnonresidue(r, r2, a[0], a[1], a[2]); o << r << " " << r2; }
         // ------------------------------------------------------------ gmp++_int_misc.C
